@@ -432,6 +432,9 @@ func c12Scenarios(thorough bool) []string {
 	add("NS:2|NS:5")
 	add("NS:2:24|NS:2:12")
 	add("NS:6:15|NS:6:15|NS:3:24")
+	// the package's own default source used concurrently (it must be safe for concurrent use)
+	add("ND:2|ND:5")
+	add("ND:2:24|ND:2:24")
 	// S7 the remaining entry points
 	add("ST:2|ST:9")
 	add("SD:2|SD:2")
@@ -440,6 +443,14 @@ func c12Scenarios(thorough bool) []string {
 	add("GE:3|GE:3")
 	add("GL:7|GL:7")
 	add("NW:2|CV:2")
+	// S7' the error paths concurrently (failing validations of the same and of different kinds)
+	add("CF:2|CF:2")
+	add("CF:2|CG:2")
+	add("CF:5|CG:9")
+	add("CW:2|CF:2")
+	add("CB:3|CF:3")
+	add("GB:2|NB:2")
+	add("CF:2|CG:2|CV:2")
 	// S8 unsupported language next to English
 	add("CV:10|CV:2")
 	add("GE:10|CV:2")
